@@ -160,6 +160,8 @@ def content_scripts(tier, rng, tid0):
         ops.append({"o": "maintain", "w": 0})
         if gi % 5 != 4:
             ops.append({"o": "amaintain", "w": 0})
+        if gi % 3 == 1:
+            ops.append({"o": "aclone", "w": 0})
         for j in range(rng.randint(1, 3)):
             ops.append({"o": "create", "w": 0, "a": 80 + j, "b": None})
             if rng.random() < 0.5:
@@ -285,8 +287,10 @@ def random_scripts(tier, rng, tid0, n):
                 ops.append({"o": "edelete", "w": w, "h": hk})
             elif x < 0.63:
                 ops.append({"o": "maintain", "w": w})
-            elif x < 0.69:
+            elif x < 0.67:
                 ops.append({"o": "amaintain", "w": w})
+            elif x < 0.69:
+                ops.append({"o": "aclone", "w": w})
             elif x < 0.73:
                 # the creation path of deserialisation called directly: the carrier of the id, or a new entity
                 ops.append({"o": "retrieve", "w": w, "m": rng.randrange(8)})
